@@ -430,6 +430,20 @@ fn configure_build(
         return Ok(reason.into());
     }
 
+    // module names are unique per context only and a builder sees the definition nearest to
+    // it; an app of the same name defined further up the chain is not what this builder
+    // builds (both would claim the same output file)
+    if let Some((seen_in, seen)) = builder.resolve_module(&binary.name, contexts) {
+        if seen.context_id != binary.context_id {
+            reason.msg(format!(
+                "app {}: shadowed for builder {} by the definition in context {}",
+                binary.name, builder.name, seen_in.name,
+            ));
+            println!("{}", reason);
+            return Ok(reason.into());
+        }
+    }
+
     println!("configuring {} for {}", binary.name, builder.name);
 
     // create build instance (binary A for builder X)
